@@ -52,6 +52,9 @@ type EnvChoice struct {
 
 // Cfg mirrors the cfg record of Session.tla.
 type Cfg struct {
+	// onMid (not part of the scenario record): called by the body producer of a message between the two halves of its content
+	onMid func()
+
 	Op        string   `json:"op"`
 	Nr        []int    `json:"nr"`
 	Enc8      []bool   `json:"enc8"`
@@ -431,7 +434,23 @@ func BuildMsg(m int, cfg Cfg, failing bool) (*mail.Msg, error) {
 			return int64(n), fmt.Errorf("source ended early: %w", io.EOF)
 		})
 	default:
+		oneShot := failing && cfg.Variant == "oneshot" // a source that can be read once (a stream): a second call finds nothing left
+		used := false
+		onMid := cfg.onMid
 		msg.SetBodyWriter(mail.TypeTextPlain, func(w io.Writer) (int64, error) {
+			if oneShot && used {
+				return 0, nil
+			}
+			used = true
+			if onMid != nil && failing {
+				n1, err := io.WriteString(w, bodyHead)
+				if err != nil {
+					return int64(n1), err
+				}
+				onMid()
+				n2, err := io.WriteString(w, bodyTail)
+				return int64(n1 + n2), err
+			}
 			n, err := io.WriteString(w, bodyHead+bodyTail)
 			return int64(n), err
 		})
@@ -700,6 +719,8 @@ type Runner struct {
 	tracks []*refsmtp.TrackConn
 	stall  bool
 	Infra  error // set when the harness itself failed (never a verdict)
+
+	midCancel func() // variant ctxcancelmid: cancels the context of the operation (called from inside a body producer)
 }
 
 // timed runs f under the watchdog and reports the elapsed class.
@@ -777,6 +798,13 @@ func (rn *Runner) Run() {
 		}
 		if e.C == "cstall" || e.C == "cwfail" {
 			cfg.Big = true
+		}
+	}
+	if cfg.Variant == "ctxcancelmid" {
+		cfg.onMid = func() {
+			if rn.midCancel != nil {
+				rn.midCancel()
+			}
 		}
 	}
 	addr := map[string][2]int{}
@@ -867,8 +895,11 @@ func (rn *Runner) Run() {
 	switch cfg.Variant {
 	case "ctxdl":
 		opctx, opcancel = context.WithTimeout(context.Background(), 10*time.Minute)
-	case "ctxcancel":
+	case "ctxcancel", "ctxcancelmid":
 		opctx, opcancel = context.WithCancel(context.Background())
+	}
+	if cfg.Variant == "ctxcancelmid" { // the caller cancels the context of DialAndSend while a message is half-way through DATA
+		rn.midCancel = func() { opcancel(); time.Sleep(30 * time.Millisecond) }
 	}
 	defer opcancel()
 	// variant "warmup": before the scenario starts the same Client completes a dial (STARTTLS, authentication) and a Close
